@@ -17,7 +17,7 @@ RULE = ("well-formed element trees (nested i/em/b/span and p/div, depth <= 3, te
 ASSUMPTIONS = ["lxml is the well-formedness judge", "entities are not generated in trees (text alphabet is plain ASCII)"]
 FLOORS = {"quick": {"trees": 3000, "crossing_spans:skip": 1000, "crossing_spans:wrap": 1000,
                     "skip_omitted": 200, "skip_emitted": 1000, "wrap_emitted": 2000, "touching_sets": 300,
-                    "legal_docs": 200},
+                    "legal_docs": 200, "same_plain_other_markup": 300},
           "thorough": {"trees": 200000, "crossing_spans:skip": 60000, "crossing_spans:wrap": 60000,
                        "legal_docs": 10000}}
 N = {"quick": 900, "thorough": 40000}
@@ -122,6 +122,17 @@ def run_shard(spec, rec):
         if nc:
             rec.nontrivial([src, spans])
         judge(src, plain, spans, rec, "tree")
+        if k % 3 == 0:
+            # history: the same text content under other markup of the same length (tag names swapped
+            # pairwise, so the tree stays well-formed) immediately afterwards
+            swap = {"i": "b", "b": "i", "em": "h2", "h2": "em", "p": "u", "u": "p"}
+            src2 = re.sub(r"<(/?)(i|b|em|h2|p|u)((?:\s[^>]*)?)>", lambda m: f"<{m.group(1)}{swap[m.group(2)]}{m.group(3)}>", src)
+            # and one with a text-equal but structurally different layout: drop the first inline element
+            src3 = re.sub(r"<(i|b|u|sup)>([^<]*)</\1>", r"\2<\1></\1>", src, count=1)
+            for other in (src2, src3):
+                if other != src and len(other) == len(src) and re.sub(r"<[^>]+>", "", other) == plain:
+                    rec.count("same_plain_other_markup")
+                    judge(other, plain, spans, rec, "tree-history")
         if len(rec.samples) < 3 and nc >= 2:
             rec.sample(dict(source=src, spans=spans))
         if k % 5 == 0:
